@@ -44,6 +44,8 @@ pub fn classes_vec(c: &Classes) -> Vec<(&'static str, u64)> {
         ("cases_from_template", b(c.templates > 0)),
         ("cases_with_swarm_configuration", b(c.swarmed)),
         ("cases_with_observer_created_inside_a_handler", b(c.observers_created_in_handlers > 0)),
+        ("cases_with_subscription_made_inside_a_handler", b(c.subscriptions_made_in_handlers > 0)),
+        ("cases_with_handler_unsubscribing_itself", b(c.unsubscribed_in_handlers > 0)),
         ("cases_with_inner_node_observed", b(c.inner_observed > 0)),
         ("cases_with_no_observer_round", b(c.no_observer_rounds > 0)),
         ("cases_with_invalidation", b(c.invalidated > 0)),
@@ -132,6 +134,9 @@ pub fn prof_c11(t: Tier) -> Profile {
     p.weird_cutoffs = true;
     p.subscriptions = true;
     p.observer_churn = 2;
+    // handlers that subscribe / unsubscribe / disallow / create observers: the handler counts
+    // must still add up (decoder 2)
+    p.handler_actions = crate::choice::dv() >= 2;
     p.audit = true;
     sized(p, t)
 }
